@@ -19,6 +19,7 @@ META = {
     "deciding": ["binomial_evaluations.binary_joint_log_likelihood_ndarray", "brier_evaluations._brier_score_ndarray",
                  "trace:binary test_distribution[j]~simulated[j]", "trace:brier test_distribution[j]~simulated[j]"],
 }
+META["added"] = 'Added: Fortran / transposed arrays for primitives and tests, injected Brier collisions (two numbers in one bin), forecasts re-scaled before the tests, many low-rate active bins (product underflow), shared object histories from gridcases.'
 MANIFEST = {
     "technique": "runtime post-conditions on the real binary-likelihood / Brier primitives (every call, including those made for simulated catalogs) vs expm1-based oracle; simulator boundary log + offline alignment of test distributions; metamorphic activity-only check",
     "level_text": "Every call of the two score primitives - direct, from the three public tests, and for each simulated catalog - is compared with the definition computed by an independent cancellation-free formula; test distributions are aligned with the recorded simulated catalogs; dependence on activity only is checked by re-scoring min(w,1) and k*w.",
